@@ -1282,6 +1282,8 @@ def check_case(case, tally):
             _MIN_CACHE[ck] = (small, [f for f in _flags(small)], m2)
         small, mflags, m2 = _MIN_CACHE[ck]
         sig = {"invariant": inv, "approximator": _approx_of(case), "level": level, "trigger": "+".join(mflags) or "always"}
+        if "non-differentiated-inputs-off-defaults" in mflags:  # stable key for the registered known finding
+            sig["shape"] = "non-differentiated-inputs-off-defaults"
         tally.violation(sig, small, f"{inv}: {m2}\n  minimal case={small}\n  structural trigger: {sig['trigger']}")
 
 
@@ -1415,7 +1417,7 @@ def cases_H(thorough, alpha):
 
 
 def cases_X(alpha):
-    """NOT part of the default run (./check C16 --only X): witnesses of a behaviour left outside the oracle -
+    """Witnesses of a registered known finding (known_findings.json, shape non-differentiated-inputs-off-defaults) -
     linearize(input_data) in an approximation mode with a strict subset of differentiated inputs evaluates the
     other inputs at the discipline's defaults instead of input_data."""
     base = {"part": "HB", "layout": "toy54", "alpha": alpha, "wrong": None, "kind": "linearize", "step": "scalar", "same_point": False, "free_point": True}
@@ -1537,7 +1539,7 @@ def run(ctx):
         cases += cases_H(ctx.thorough, alpha)
     if not only or only == "HB":
         cases += cases_HB(ctx.thorough, alpha)
-    if only == "X":
+    if not only or only == "X":  # witnesses of the registered known finding (non-differentiated inputs off their defaults)
         cases += cases_X(alpha)
     if not only or (only.startswith("B")):
         cases += [c for c in cases_B(ctx.thorough, alpha) if not only or only == "B" or c["part"] == only]
